@@ -9,6 +9,7 @@
 //     (a fired job is removed from the table first, so it runs exactly once);
 //   - two goroutines each for HasPendingAttestations, subscribeToBeaconCommittees,
 //     AttestAndScheduleAggregate and VerifySyncCommitteeMessages.
+//
 // The head events carry changing duty dependent roots, so that the controller's own goroutines
 // (refreshAttesterDutiesForEpoch -> scheduleAttestations, subscribeToBeaconCommittees) run as well.
 package c17
@@ -17,6 +18,7 @@ import (
 	"context"
 	"strings"
 	"sync"
+	"sync/atomic"
 	"testing"
 	"time"
 
@@ -138,6 +140,28 @@ func c17ctlDue(ct *mocks.ChainTime, j mocks.Job) bool {
 	return j.Time.Before(ct.StartOfSlot(ct.CurrentSlot() + 1))
 }
 
+// c17ctlAccounts is vouch's mock provider, except that every second full listing leaves the highest
+// validator out (a validator that is not active yet / any more): the number of active validators
+// that the accounts refresher records changes from refresh to refresh, as it does in production.
+type c17ctlAccounts struct {
+	*mockaccountmanager.ValidatingAccountsProvider
+	calls atomic.Uint64
+}
+
+func (a *c17ctlAccounts) ValidatingAccountsForEpoch(ctx context.Context, epoch phase0.Epoch) (map[phase0.ValidatorIndex]e2wtypes.Account, error) {
+	all, err := a.ValidatingAccountsProvider.ValidatingAccountsForEpoch(ctx, epoch)
+	if err != nil || a.calls.Add(1)%2 == 1 {
+		return all, err
+	}
+	res := make(map[phase0.ValidatorIndex]e2wtypes.Account, len(all))
+	for k, v := range all {
+		if uint64(k) != c17ctlValidators {
+			res[k] = v
+		}
+	}
+	return res, nil
+}
+
 func init() {
 	scenarios["controller-duties"] = scenario{"controller_standard", func(t *testing.T) {
 		ctx := context.Background()
@@ -171,7 +195,7 @@ func init() {
 			standardcontroller.WithAttesterDutiesProvider(c17ctlDuties{}),
 			standardcontroller.WithSyncCommitteeDutiesProvider(mock.NewSyncCommitteeDutiesProvider()),
 			standardcontroller.WithEventsProvider(ev),
-			standardcontroller.WithValidatingAccountsProvider(vap),
+			standardcontroller.WithValidatingAccountsProvider(&c17ctlAccounts{ValidatingAccountsProvider: vap}),
 			standardcontroller.WithProposalsPreparer(mockproposalpreparer.New()),
 			standardcontroller.WithScheduler(sched),
 			standardcontroller.WithAttester(c17ctlAttester{}),
@@ -194,10 +218,9 @@ func init() {
 		if err != nil {
 			t.Fatalf("controller constructor: %v", err)
 		}
-		if len(ev.Handlers["head"]) != 1 || len(ev.Handlers["block"]) != 1 {
-			t.Fatalf("expected one head and one block subscription, have %d and %d", len(ev.Handlers["head"]), len(ev.Handlers["block"]))
+		if len(ev.Handlers["head"]) < 1 || len(ev.Handlers["block"]) < 1 {
+			t.Fatalf("expected a head and a block subscription, have %d and %d", len(ev.Handlers["head"]), len(ev.Handlers["block"]))
 		}
-		head, block := ev.Handlers["head"][0], ev.Handlers["block"][0]
 		var periodic []*mocks.Job
 		for _, name := range []string{"Epoch ticker", "Account refresh ticker", "Prepare proposals ticker"} {
 			j, ok := sched.Get(name)
@@ -253,24 +276,34 @@ func init() {
 			}()
 		}
 
-		// the head subscription: the clock advances one slot per event; the dependent roots change from time to time
-		headWait := single(3*c17ctlSPE, func(i int) {
-			slot := uint64(startSlot + i)
-			ct.SetSlot(slot)
-			head(&apiv1.Event{Topic: "head", Data: &apiv1.HeadEvent{
-				Slot:                      phase0.Slot(slot),
-				Block:                     phase0.Root{byte(slot), byte(slot >> 8), 1},
-				PreviousDutyDependentRoot: phase0.Root{1, byte(i / 24)},
-				CurrentDutyDependentRoot:  phase0.Root{2, byte(i / 10)},
-			}})
-			time.Sleep(5 * time.Millisecond)
-		})
-		// the block subscription
-		blockWait := single(3*c17ctlSPE, func(i int) {
-			slot := uint64(startSlot + i)
-			block(&apiv1.Event{Topic: "block", Data: &apiv1.BlockEvent{Slot: phase0.Slot(slot), Block: phase0.Root{byte(slot), byte(slot >> 8), 1}}})
-			time.Sleep(5 * time.Millisecond)
-		})
+		// the head subscription(s), one goroutine each as in production: the clock advances one slot per event; the
+		// dependent roots change from time to time
+		var waits []func()
+		for hi, head := range ev.Handlers["head"] {
+			hi, head := hi, head
+			waits = append(waits, single(3*c17ctlSPE, func(i int) {
+				slot := uint64(startSlot + i)
+				if hi == 0 {
+					ct.SetSlot(slot)
+				}
+				head(&apiv1.Event{Topic: "head", Data: &apiv1.HeadEvent{
+					Slot:                      phase0.Slot(slot),
+					Block:                     phase0.Root{byte(slot), byte(slot >> 8), 1},
+					PreviousDutyDependentRoot: phase0.Root{1, byte(i / 24)},
+					CurrentDutyDependentRoot:  phase0.Root{2, byte(i / 10)},
+				}})
+				time.Sleep(5 * time.Millisecond)
+			}))
+		}
+		// the block subscription(s)
+		for _, block := range ev.Handlers["block"] {
+			block := block
+			waits = append(waits, single(3*c17ctlSPE, func(i int) {
+				slot := uint64(startSlot + i)
+				block(&apiv1.Event{Topic: "block", Data: &apiv1.BlockEvent{Slot: phase0.Slot(slot), Block: phase0.Root{byte(slot), byte(slot >> 8), 1}}})
+				time.Sleep(5 * time.Millisecond)
+			}))
+		}
 
 		// everything that runs on arbitrary goroutines
 		hammer(2, 250,
@@ -302,8 +335,9 @@ func init() {
 				time.Sleep(2 * time.Millisecond)
 			},
 		)
-		headWait()
-		blockWait()
+		for _, w := range waits {
+			w()
+		}
 		close(stop)
 		wg.Wait()
 		// what is left in the table, from two goroutines; then let the controller's own goroutines finish
